@@ -12,6 +12,8 @@
 (*                             orelse consisting of one If; <<>> = none)   *)
 (*     Ret(e)                  return e                                    *)
 (*   and, JUST OUTSIDE what MxlPy's translator supports (it must refuse):  *)
+(*     Chain(names, e)         x1 = x2 = ... = e  (e evaluated once, all   *)
+(*                             targets bound)                              *)
 (*     Aug(op, x, e)           x op= e       (op \in BinOps)               *)
 (*     While(t, body)          while t: body (at most LoopFuel rounds,     *)
 (*                             otherwise the outcome is "skip")            *)
@@ -49,6 +51,7 @@ EXTENDS Expr
 Assign(x, e)          == [k |-> "assign", name |-> x, e |-> e]
 Ret(e)                == [k |-> "ret", e |-> e]
 If(t, body, orelse)   == [k |-> "if", e |-> t, body |-> body, orelse |-> orelse]
+Chain(names, e)       == [k |-> "chain", names |-> names, e |-> e]
 Aug(op, x, e)         == [k |-> "aug", name |-> x, op |-> op, e |-> e]
 While(t, body)        == [k |-> "while", e |-> t, body |-> body]
 For(i, cnt, body)     == [k |-> "for", name |-> i, e |-> Num(cnt), body |-> body]
@@ -65,7 +68,8 @@ Blocks(s) == IF s.k = "if" THEN <<s.body, s.orelse>> ELSE IF s.k \in {"while", "
 
 \* names bound by assignment anywhere in the body (Python: these are the locals besides the parameters)
 Assigned(body) ==
-    UNION {(IF body[j].k \in {"assign", "aug", "for"} THEN {body[j].name} ELSE {})
+    UNION {(IF body[j].k \in {"assign", "aug", "for"} THEN {body[j].name}
+            ELSE IF body[j].k = "chain" THEN SeqRange(body[j].names) ELSE {})
            \cup UNION {Assigned(Blocks(body[j])[m]) : m \in DOMAIN Blocks(body[j])} : j \in DOMAIN body}
 
 \* every expression occurring in the body
